@@ -143,6 +143,11 @@ def run_case(case, rng):
     scale = {"zero": 0.0, "exact": 1.0, "half": 0.5, "quarter": 0.25}[hk]
     hval = {s: -(scale * (dist[s] if dist[s] < float("inf") else M)) for s in nodes}
     tb = rng.choice(["lifo", "fifo", "random"])
+    if tb == "lifo" and hk != "zero" and rng.random() < 0.3:
+        # the exact cost-to-go of a state that reaches no goal is infinite (consistent: -inf <= anything). With fifo / random
+        # tie-breaking such values trip one of A*'s own internal assertions, so that combination is left out
+        hval = {s: (v if dist[s] < float("inf") else float("-inf")) for s, v in hval.items()}
+        hk = hk + "(-inf at dead states)"
     rao = rng.random() < 0.5
     seed = rng.choice([None, 0, 1, rng.randrange(2 ** 31)])
     if not (tb == "random" or rao):
